@@ -161,6 +161,12 @@ end Fs.Descr
 /-! ### purity of `description` / `describe` (cursor.py:100-123) -/
 namespace Fs.Descr
 
+/-- `cursor.describe(q)` = `execute("DESCRIBE " + q)`: only texts that DuckDB/sqlglot can put behind DESCRIBE are describable -/
+def describeOf : Kind → Described
+  | .query | .seededQuery => .ofResult     -- describe() of RANDOM(seed) describes the query itself (no setseed prefix under DESCRIBE)
+  | _ => .raises                           -- DML, DDL, USE, SET, transaction control: `DESCRIBE insert …` is not a statement
+
+
 /-- the per-cursor fields (`cursor.py:64-73`); result rows and SQL texts are opaque here -/
 structure Cur (R Q : Type) where
   result : Option R := none          -- `_arrow_table`
